@@ -155,7 +155,11 @@ def install(R):
     R.add(K + "Crop.load_function", cls="Crop", result="none", assumed=True, modifies=["self._fn", "self.farmer"],
           ensures=[("frame", "fs_unchanged()")], raises={"AnyError": dict(ensures=["fs_unchanged()"])},
           notes="unpickles the saved function (cloudpickle) and re-attaches it to the farmer: C06")
-    R.add(K + "parse_fn_farmer", result="V", pure=True, assumed=True)
+    R.add(K + "parse_fn_farmer", result="V", pure=True, props=["C06"],
+          ensures=[("a_farmer_brings_its_own_function", "slen(result) == 2 and sget(result, 1) == farmer and "
+                                                        "implies(farmer is None, sget(result, 0) == fn) and implies(farmer is not None, sget(result, 0) == farmer.fn)")],
+          raises={"AnyError": dict()},
+          notes="the function a crop runs is its farmer's when a farmer is given (the separate fn is ignored with a warning), else the given one")
 
     R.add(K + "Crop._sync_info_from_disk", cls="Crop", result="none", props=["C08", "C04", "C07", "C16", "C06"],
           modifies=["self.batchsize", "self.num_batches", "self._batch_remainder", "self.farmer", "self._fn"],
